@@ -143,3 +143,74 @@ pub proof fn lemma_ce_step(w0: World, w1: World, w2: World, ctx: Context, av: Ve
         if j < i { assert(s[j] == new_calls(w0, w1)[j]); } else { assert(s[j] == new_calls(w1, w2)[0]); }
     }
 }
+
+// ---- rule selection (C03: precedence) ----
+/// `seg` is exactly the log left by trying and REJECTING candidates [0..j): a rule without policies is rejected
+/// when some of its signers is missing from `all` (no call); a rule with policies when one of its policies
+/// answered false (calls to its policies in order, up to and including the first refusal)
+pub open spec fn rejected_log(seg: Seq<Call>, this: Address, ctx: Context, all: Seq<Signer>, cands: Seq<ContextRule>, j: int) -> bool
+    decreases j
+{
+    if j <= 0 { seg.len() == 0 } else {
+        let rule = cands[j - 1];
+        let a = filter_in(rule.signers@, all);
+        if rule.policies@.len() == 0 {
+            a.len() != rule.signers@.len() && rejected_log(seg, this, ctx, all, cands, j - 1)
+        } else {
+            exists|m: int| 0 <= m < seg.len() && rejected_log(#[trigger] seg.take(m), this, ctx, all, cands, j - 1)
+                && ce_seg(seg.skip(m), this, ctx, a, rule, seg.len() - m, false)
+        }
+    }
+}
+/// `seg` is exactly the log left by rejecting candidates [0..k) and then ACCEPTING candidate k: without policies,
+/// every signer of the rule is in `all`; with policies, every one of them was asked, in order, and answered true
+pub open spec fn accepted_log(seg: Seq<Call>, this: Address, ctx: Context, all: Seq<Signer>, cands: Seq<ContextRule>, k: int) -> bool {
+    let rule = cands[k];
+    let a = filter_in(rule.signers@, all);
+    let np = rule.policies@.len() as int;
+    if np == 0 {
+        a.len() == rule.signers@.len() && rejected_log(seg, this, ctx, all, cands, k)
+    } else {
+        np <= seg.len() && rejected_log(seg.take(seg.len() - np), this, ctx, all, cands, k)
+            && ce_seg(seg.skip(seg.len() - np), this, ctx, a, rule, np, true)
+    }
+}
+pub open spec fn gvc_choice(w1: World, seg: Seq<Call>, ctx: Context, all: Seq<Signer>, rule: ContextRule, a: Seq<Signer>, k: int) -> bool {
+    let cands = candidates(w1, ctx_rule_type(ctx));
+    &&& 0 <= k < cands.len()
+    &&& rule == cands[k]
+    &&& a == filter_in(rule.signers@, all)
+    &&& accepted_log(seg, w1.this, ctx, all, cands, k)
+}
+pub open spec fn gvc_post(w1: World, w2: World, ctx: Context, all: Seq<Signer>, r: (ContextRule, Context, Vec<Signer>)) -> bool {
+    &&& calls_ext(w1, w2)
+    &&& candidates_exist(w1, ctx_rule_type(ctx))
+    &&& r.1 == ctx
+    &&& exists|k: int| #[trigger] gvc_choice(w1, new_calls(w1, w2), ctx, all, r.0, r.2@, k)
+}
+pub proof fn lemma_gvc_step(w0: World, w1: World, w2: World, ctx: Context, all: Seq<Signer>, cands: Seq<ContextRule>, j: int, r: bool)
+    requires
+        calls_ext(w0, w1), calls_ext(w1, w2), 0 <= j < cands.len(), cands[j].policies@.len() > 0,
+        rejected_log(new_calls(w0, w1), w0.this, ctx, all, cands, j),
+        ce_seg(new_calls(w1, w2), w0.this, ctx, filter_in(cands[j].signers@, all), cands[j], new_calls(w1, w2).len() as int, r),
+        r ==> new_calls(w1, w2).len() == cands[j].policies@.len(),
+        !r ==> new_calls(w1, w2).len() >= 1,
+    ensures
+        calls_ext(w0, w2),
+        r ==> accepted_log(new_calls(w0, w2), w0.this, ctx, all, cands, j),
+        !r ==> rejected_log(new_calls(w0, w2), w0.this, ctx, all, cands, j + 1),
+{
+    lemma_calls_ext_trans(w0, w1, w2);
+    let seg = new_calls(w0, w2);
+    let m = new_calls(w0, w1).len() as int;
+    assert(seg.take(m) =~= new_calls(w0, w1));
+    assert(seg.skip(m) =~= new_calls(w1, w2));
+    if r {
+        assert(seg.len() - cands[j].policies@.len() == m);
+    }
+}
+pub proof fn lemma_gvc_intro(w1: World, w2: World, ctx: Context, all: Seq<Signer>, r: (ContextRule, Context, Vec<Signer>), k: int)
+    requires calls_ext(w1, w2), candidates_exist(w1, ctx_rule_type(ctx)), r.1 == ctx,
+        gvc_choice(w1, new_calls(w1, w2), ctx, all, r.0, r.2@, k),
+    ensures gvc_post(w1, w2, ctx, all, r),
+{}
